@@ -4,7 +4,7 @@ import json, os, random
 import vf, report
 
 
-def run(pid, module, proj, tier, seed):
+def run(pid, module, proj, tier, seed, extra=()):
     thorough = tier == "thorough"
     mc = vf.tlc_mc(pid, "DisputeScenario_MC", workers=1, cfg="DisputeScenario_MC.cfg", timeout=600)
     cases = mc.prints("CASE")
@@ -18,7 +18,7 @@ def run(pid, module, proj, tier, seed):
     wd = vf.fresh(vf.rundir(pid, "scen"))
     cpath, tpath, spath = os.path.join(wd, "cases.ndjson"), os.path.join(wd, "trace.ndjson"), os.path.join(wd, "stats.json")
     open(cpath, "w").write("\n".join(json.dumps(c) for c in cases) + "\n")
-    vf.run_driver(os.path.join(vf.rundir(pid, "bin"), "vh"), ["dscen", "-cases", cpath, "-trace", tpath, "-stats", spath, "-seed", str(seed), "-proj", proj], wd)
+    vf.run_driver(os.path.join(vf.rundir(pid, "bin"), "vh"), ["dscen", "-cases", cpath, "-trace", tpath, "-stats", spath, "-seed", str(seed), "-proj", proj] + list(extra), wd)
     st = json.load(open(spath))
     viols, s2, t2, _ = vf.validate_trace(pid, module, tpath, group_key="hist", nshards=8)
     def d(clause, rec):
